@@ -3,6 +3,7 @@ SPECIFICATION Spec
 CONSTANTS
   GRIDS <- QuickMcGrids
   SGRIDS <- McSolveGrids
+  AGRIDS <- TinyGrids
   KMAX = 3
   DEN = 2
   OCCVALS = {0, 1, 2}
